@@ -28,7 +28,7 @@ func init() {
 		Level: "exploration",
 		Rule: "even cases: deterministic pauses — phase-A ids inserted and quiesced (memory / flushed / mixed), a memstore-inclusive ungrouped scan is started, inside its consumer callback at row k phase-B ids are inserted " +
 			"(into cells already delivered, not yet delivered, new periods of existing keys, new keys), ingestion is quiesced, optionally 1-2 FlushAll, then the scan continues (every third pause also processes a point far in the future, which moves the clock past the retention of everything still undelivered); every delivered row must decode (base 3) to exactly the phase-A ids of its cell in all fields (SUM, COUNT, MAX, AVG, _points), no row may consist of B ids, no A cell may be missing. " +
-			"odd cases: stress — one inserter (WAL order = id order), a flusher and 4-8 scanning goroutines, each scan's decoded id set must be prefix-closed ({ids <= m}), m monotone per scanner, and every row consistent across its fields; race detector attributes ingest-vs-scan reports. " +
+			"odd cases: stress — one inserter (WAL order = id order), a flusher and 4-8 scanning goroutines, each scan's decoded id set must be prefix-closed ({ids <= m}), m monotone per scanner and not below what the row store had applied when the scan started (progress hook), and every row consistent across its fields; race detector attributes ingest-vs-scan reports. " +
 			"non-trivial = B ids were processed while the scan was paused with rows still undelivered / >=3 distinct prefix lengths observed; distinct by (k, placement, flush) combination",
 		Assumptions: []string{"the consumer callback holds no zenodb lock, so waiting for quiescence inside it is legitimate", "ids of one cell are 3^j, j<30: sums are exact in float64"},
 		Cases: func(tier string) int {
@@ -395,7 +395,10 @@ func c18Stress(c *fw.Ctx) {
 					return
 				default:
 				}
-				startedAfter := int(atomic.LoadInt64(&inserted))
+				// everything the row store had applied before the scan started must be in the scan: the first insert it
+				// applied is the clock point, then the ids in order
+				_, _, appliedBefore := db.DB.VerifTableProgress("t")
+				startedAfter := int(appliedBefore) - 2 // highest id certainly processed before the scan started
 				res := db.Query("SELECT * FROM t", true)
 				atomic.AddInt64(&scans, 1)
 				if res.Failed() {
@@ -453,7 +456,10 @@ func c18Stress(c *fw.Ctx) {
 					findings <- finding{"c18-stress-goes-back", fmt.Sprintf("scanner %d: a later scan reflects ids up to %d, an earlier one had already seen %d", s, m, lastM)}
 					return
 				}
-				_ = startedAfter
+				if m < startedAfter {
+					findings <- finding{"c18-stress-misses-processed-point", fmt.Sprintf("scanner %d: the row store had applied ids up to %d before the scan started, but the scan only reflects ids up to %d", s, startedAfter, m)}
+					return
+				}
 				lastM = m
 				prefixes[s][m] = true
 				if m >= nIDs-1 {
